@@ -152,6 +152,7 @@ func stripCR(b []byte) []byte {
 func (s *Scanner) scanString() string {
 	// '"' opening already consumed
 	offs := s.offset - 1
+	terminated := false
 
 	for {
 		ch := s.ch
@@ -161,6 +162,7 @@ func (s *Scanner) scanString() string {
 		}
 		s.next()
 		if ch == '"' {
+			terminated = true
 			break
 		}
 		if ch == '\\' {
@@ -168,7 +170,12 @@ func (s *Scanner) scanString() string {
 		}
 	}
 
-	return string(s.src[offs+1 : s.offset-1])
+	// strip the quotes; an unterminated literal has no closing quote
+	lit := s.src[offs+1 : s.offset]
+	if terminated {
+		lit = lit[:len(lit)-1]
+	}
+	return string(lit)
 }
 
 // scanEscape parses an escape sequence where rune is the accepted
@@ -245,6 +252,7 @@ func (s *Scanner) scanRawString() string {
 	offs := s.offset - 1
 
 	hasCR := false
+	terminated := false
 	for {
 		ch := s.ch
 		if ch < 0 {
@@ -253,6 +261,7 @@ func (s *Scanner) scanRawString() string {
 		}
 		s.next()
 		if ch == '`' {
+			terminated = true
 			break
 		}
 		if ch == '\r' {
@@ -260,7 +269,11 @@ func (s *Scanner) scanRawString() string {
 		}
 	}
 
-	lit := s.src[offs+1 : s.offset-1]
+	// strip the quotes; an unterminated literal has no closing quote
+	lit := s.src[offs+1 : s.offset]
+	if terminated {
+		lit = lit[:len(lit)-1]
+	}
 	if hasCR {
 		lit = stripCR(lit)
 	}
